@@ -47,6 +47,15 @@ StatementBuilder::StatementBuilder(Document& doc, std::vector<std::filesystem::p
     this->libpaths.insert(this->libpaths.begin(), "");
 }
 
+/** True if the user data of \a s is a variable_t (and not a function, location, template, instance or process). */
+static bool hasVariableData(const symbol_t& s)
+{
+    type_t type = s.get_type().strip_array();
+    return s.get_data() != nullptr &&
+           (type.is(INT) || type.is(STRING) || type.is(DOUBLE) || type.is(BOOL) || type.is(CLOCK) || type.is(CHANNEL) ||
+            type.is(SCALAR) || type.get_kind() == RECORD);
+}
+
 void StatementBuilder::collectDependencies(std::set<symbol_t>& dependencies, expression_t expr)
 {
     std::set<symbol_t> symbols;
@@ -56,14 +65,9 @@ void StatementBuilder::collectDependencies(std::set<symbol_t>& dependencies, exp
         symbols.erase(s);
         if (dependencies.find(s) == dependencies.end()) {
             dependencies.insert(s);
-            if (auto d = s.get_data(); d) {
-                if (auto t = s.get_type(); !(t.is_function() || t.is_function_external())) {
-                    // assume is its variable, which is not always true
-                    variable_t* v = static_cast<variable_t*>(d);
-                    v->init.collect_possible_reads(symbols);
-                } else {
-                    // TODO; fixme.
-                }
+            if (hasVariableData(s)) {
+                variable_t* v = static_cast<variable_t*>(s.get_data());
+                v->init.collect_possible_reads(symbols);
             }
         }
     }
